@@ -1180,7 +1180,7 @@ def run():
     cov['retention_trimmed_cases'] = stats['trimmed']
     cov['ini_lexing_probe'] = lexing_probe(model, impl)
     chk.samples += cov.pop('install_samples')
-    total = cov['install_histories'] + cov['ini_cases'] + cov['oneline_cases'] + cov['history_cases']
+    total = cov['install_histories'] + cov['install_core_histories_in_own_process'] + cov['ini_cases'] + cov['oneline_cases'] + cov['history_cases']
     cov.update({'evaluations': total,
                 'distinct_nontrivial': cov['install_distinct_nontrivial'] + cov['ini_distinct_nontrivial'] + cov['oneline_distinct_nontrivial'],
                 'rule': 'install: random histories (length <= 12) over I R F1 F2 F3 D plus every history up to the stated length, plus histories in which up to three '
@@ -1233,9 +1233,11 @@ def replay(path):
         line, texts = oneline_line(c), None
     work = tempfile.mkdtemp(prefix='c19r_')
     try:
-        o = run_case(impl, c, texts, work)
+        failing, disagree, obs, _ = compare_front(None, c['front'], [c], model, impl, work, {'trimmed': 0})
+        o = obs[0]
     finally:
         shutil.rmtree(work, ignore_errors=True)
+    print('verdict        ', json.dumps({'property_falsified': [w for _, why, _ in failing for w in why], 'model_differs': [why for _, why, _ in disagree]}, ensure_ascii=False))
     print('case           ', json.dumps(describe(c, texts), ensure_ascii=False))
     print('implementation ', json.dumps(small(o, c.get('codec', 'utf8')), ensure_ascii=False))
     _, m, _ = vlib.run_lines(model, [line], ['ini' if c['front'] == 'ini' else 'oneline'])
